@@ -19,9 +19,23 @@
                    "par"   wrong parity in k of the 40 bytes (k = 1, 2, 3, 40; adjacent or scattered)
                                                      -> the row is not received: it keeps the stored content
                                                         or stays blank
+                   "parc"  wrong parity in exactly the byte of column col
+                                                     -> as "par", UNLESS the enhancement data of the page supply the
+                                                        character of (row, col) (TtxX26!Overridden, the exception the
+                                                        statement makes): there the error may be forgiven - the row
+                                                        as transmitted or the earlier content, both are allowed.  A
+                                                        triplet that only sets colours, flash, character set,
+                                                        display attributes or font style at (row, col) forgives nothing
        X/26        "mrag", "desig" (designation)     -> changes nothing
                    "trip"  triplet j = 1..13         -> triplets j..13 are dropped (TtxX26: Kept)
-       X/27        "mrag", "desig"                   -> changes nothing
+       X/27/0      "mrag", "desig", "lcb" (link control byte)
+                                                     -> changes nothing: the links stored before stay
+                   "link"  one of the six Hamming bytes of link k = 1..6 (a data unit, not an address or control
+                           byte)                     -> link k keeps its earlier value or is no link; never another
+                                                        page; the other links are the new or the earlier ones
+
+   The stored content of a row and each link is a SET of allowed values wherever the statement leaves the
+   outcome open (singletons otherwise): the replay accepts any member.
 
    vbi_decode_teletext() / lop_parity_check() / vbi_teletext_desync() of src/packet.c are the code under
    test; one action per received packet.  A header whose own address bytes are uncorrectable cannot be
@@ -34,7 +48,7 @@ CONSTANTS Mags,          \* magazines in use, subset of 1..8
           Nats,          \* national option values used in headers
           Flofs,         \* link set ids of X/27/0
           Progs,         \* sequence of X/26/0 packets (13 triplets each)
-          HdrFaults, RowFaults, PktFaults, TripFaults,    \* the fault model, see above
+          HdrFaults, RowFaults, PktFaults, TripFaults, FlofFaults,    \* the fault model, see above
           MaxPk, MaxFaults
 
 Ok   == [f |-> "ok"]
@@ -55,10 +69,15 @@ SubsOf(p) == p[2]
 MagOf(pg) == pg \div 256               \* 1..8
 Rolling(sub) == sub >= 256             \* clock / rolling subcode: the page has one version
 Blank == [r \in Rows |-> 0]
+NoCol == 99                            \* no single-column parity error
+BlankS == [r \in Rows |-> {0}]
+BASE == 99                             \* link value: the one of the stored version this transmission builds on
+Links == 1..6
 
 HF == {Ok} \cup {[f |-> x] : x \in HdrFaults}
 RF == {Ok} \cup RowFaults
 PF == {Ok} \cup {[f |-> x] : x \in PktFaults}
+LF == PF \cup FlofFaults
 XF == PF \cup {[f |-> "trip", j |-> j] : j \in TripFaults}
 
 Init == /\ mode \in {"serial", "parallel"} /\ open = [m \in Mags |-> None] /\ lastm = 0
@@ -67,15 +86,25 @@ Init == /\ mode \in {"serial", "parallel"} /\ open = [m \in Mags |-> None] /\ la
 Stored(pg, sub) == {c \in cache : c.pg = pg /\ c.sub = sub}
 Base(o) == IF o.erase THEN {} ELSE Stored(o.pg, o.sub)     \* the stored version a transmission builds on
 
+\* the enhancement data a version holds once the page o is terminated: a retransmission carries the same data, the longer prefix survives
+EnhOf(o) == LET old == Base(o)  b == CHOOSE c \in old : TRUE
+            IN IF old = {} \/ b.enh.n <= o.enh.n THEN o.enh ELSE b.enh
+Trips(enh) == IF enh.e = 0 THEN <<>> ELSE SubSeq(Progs[enh.e], 1, enh.n)
+
 \* the version to store when the page o is terminated
 Merge(o) ==
   LET old == Base(o)
       b   == CHOOSE c \in old : TRUE
+      enh == EnhOf(o)
+      kept(r) == IF old = {} THEN {0} ELSE b.rows[r]                   \* the row is not received
+      blink(k) == IF old = {} THEN {0} ELSE b.links[k]
   IN [pg |-> o.pg, sub |-> o.sub, nat |-> o.nat,
-      rows |-> [r \in Rows |-> IF o.rows[r] # 0 THEN o.rows[r] ELSE IF old = {} THEN 0 ELSE b.rows[r]],
-      flof |-> IF o.flof # 0 \/ old = {} THEN o.flof ELSE b.flof,
-      \* the enhancement packet of a retransmission carries the same data (X26 below): the longer prefix survives
-      enh  |-> IF old = {} \/ b.enh.n <= o.enh.n THEN o.enh ELSE b.enh]
+      rows |-> [r \in Rows |-> IF o.rows[r] = 0 THEN kept(r)
+                               ELSE IF o.pcol[r] = NoCol THEN {o.rows[r]}
+                               ELSE IF <<r, o.pcol[r]>> \in Overridden(Trips(enh)) THEN kept(r) \cup {o.rows[r]}
+                               ELSE kept(r)],
+      links |-> [k \in Links |-> UNION {IF x = BASE THEN blink(k) ELSE {x} : x \in o.links[k]}],
+      enh  |-> enh]
 
 Terminate(m) ==
   IF open[m] = None THEN /\ UNCHANGED cache /\ term' = <<>>
@@ -89,7 +118,8 @@ Step(a) == /\ npk' = npk + 1 /\ lastAct' = a
 MayFail(f) == f = Ok \/ Len(flts) < MaxFaults
 
 NewPage(pg, sub, erase, nat) ==
-  [pg |-> pg, sub |-> sub, erase |-> erase, nat |-> nat, rows |-> Blank, flof |-> 0, enh |-> NoEnh, x26 |-> FALSE]
+  [pg |-> pg, sub |-> sub, erase |-> erase, nat |-> nat, rows |-> Blank, pcol |-> [r \in Rows |-> NoCol],
+   links |-> [k \in Links |-> {BASE}], enh |-> NoEnh, x26 |-> FALSE]
 
 \* page header of p/sub
 Header(p, sub, erase, nat, f) ==
@@ -119,7 +149,8 @@ Follows(m) == /\ (mode = "serial" => lastm = m)
 Row(m, r, c, f) ==
   /\ Follows(m) /\ MayFail(f)
   /\ open' = IF open[m] = None \/ f.f = "mrag" THEN open
-             ELSE [open EXCEPT ![m].rows[r] = IF f = Ok THEN c ELSE 0]
+             ELSE [open EXCEPT ![m].rows[r] = IF f = Ok \/ f.f = "parc" THEN c ELSE 0,
+                               ![m].pcol[r] = IF f.f = "parc" THEN f.col ELSE NoCol]
   /\ term' = <<>> /\ UNCHANGED <<mode, lastm, cache>>
   /\ Step([a |-> "Row", m |-> m, r |-> r, c |-> c, flt |-> f])
 
@@ -137,9 +168,13 @@ X26(m, e, f) ==
   /\ term' = <<>> /\ UNCHANGED <<mode, lastm, cache>>
   /\ Step([a |-> "X26", m |-> m, e |-> e, trips |-> Progs[e], flt |-> f])
 
+\* packet X/27/0 with the link set l (six links and the link control byte)
 Flof(m, l, f) ==
   /\ Follows(m) /\ MayFail(f) /\ l # 0
-  /\ open' = IF open[m] = None \/ f # Ok THEN open ELSE [open EXCEPT ![m].flof = l]
+  /\ open' = IF open[m] = None \/ f.f \in {"mrag", "desig", "lcb"} THEN open
+             ELSE IF f = Ok THEN [open EXCEPT ![m].links = [k \in Links |-> {l}]]
+             ELSE [open EXCEPT ![m].links = [k \in Links |-> IF k = f.k THEN open[m].links[k] \cup {0}
+                                                                       ELSE open[m].links[k] \cup {l}]]
   /\ term' = <<>> /\ UNCHANGED <<mode, lastm, cache>>
   /\ Step([a |-> "Flof", m |-> m, l |-> l, flt |-> f])
 
@@ -147,7 +182,7 @@ Next == \/ \E p \in Pages, s \in UNION {SubsOf(q) : q \in Pages}, e \in BOOLEAN,
         \/ \E m \in Mags, f \in HF : Filler(m, f)
         \/ \E m \in Mags, r \in Rows, c \in Cids, f \in RF : Row(m, r, c, f)
         \/ \E m \in Mags, e \in 1..Len(Progs), f \in XF : X26(m, e, f)
-        \/ \E m \in Mags, l \in Flofs, f \in PF : Flof(m, l, f)
+        \/ \E m \in Mags, l \in Flofs, f \in LF : Flof(m, l, f)
 Spec == Init /\ [][Next]_vars
 Bounded == npk < MaxPk
 
@@ -166,16 +201,33 @@ OnlyTransmitted == \A c \in cache : \E p \in Pages : c.pg = PgnoOf(p) /\ c.sub \
 EnhNotMisplaced == \A c \in cache : c.enh.e # 0 => MustShow(c) \subseteq Shown(c) /\ Shown(c) \subseteq Lands(Progs[c.enh.e])
 \* C03: a packet with an uncorrectable address or designation changes nothing
 Untouched(o, n) == n = o \/ (o # None /\ n = [o EXCEPT !.x26 = TRUE])
-AddressFaultNothing == [][lastAct'.flt.f \in {"mrag", "desig"} =>
+AddressFaultNothing == [][lastAct'.flt.f \in {"mrag", "desig", "lcb"} =>
                              cache' = cache /\ \A m \in Mags : Untouched(open[m], open'[m])]_vars
 \* C03: an uncorrectable header opens nothing and stores at most the page it terminates
 HeaderFaultOnlyAbandons == [][lastAct'.a \in {"Header", "Filler"} /\ lastAct'.flt # Ok =>
                                  /\ \A m \in Mags : open'[m] \in {None, open[m]}
                                  /\ cache' \subseteq cache \cup {term'[i] : i \in 1..Len(term')}]_vars
-\* C03: a row with a parity error never adds or changes content of the page in transmission
-BadRowContained == [][lastAct'.a = "Row" /\ lastAct'.flt # Ok => \A m \in Mags : open[m] # None =>
+\* C03: a row with a parity error never adds or changes content of the page in transmission (a single damaged byte
+\* leaves the decision to the termination: ParityErrorContained)
+BadRowContained == [][lastAct'.a = "Row" /\ lastAct'.flt # Ok /\ lastAct'.flt.f # "parc" => \A m \in Mags : open[m] # None =>
                          \A r \in Rows : open'[m].rows[r] \in {0, open[m].rows[r]}]_vars
 \* ... and so every row of a terminated version is blank, the stored row, or was received intact in this transmission
+KeptRow(o, r) == IF Base(o) = {} THEN {0} ELSE (CHOOSE c \in Base(o) : TRUE).rows[r]
 KeepsRows == [][\A i \in 1..Len(term') : LET v == term'[i]  o == open[MagOf(v.pg)] IN
-                  \A r \in Rows : o.rows[r] = 0 => v.rows[r] = IF Base(o) = {} THEN 0 ELSE (CHOOSE c \in Base(o) : TRUE).rows[r]]_vars
+                  \A r \in Rows : o.rows[r] = 0 => v.rows[r] = KeptRow(o, r)]_vars
+\* C03: a row received with a parity error in one byte replaces nothing and shows nothing new unless the page's enhancement
+\* data supply the character of exactly that position; a triplet of a mode that supplies no character excuses nothing
+ParityErrorContained ==
+  [][\A i \in 1..Len(term') : LET v == term'[i]  o == open[MagOf(v.pg)] IN
+        \A r \in Rows : (o.rows[r] # 0 /\ o.pcol[r] # NoCol) =>
+             \/ v.rows[r] = KeptRow(o, r)
+             \/ /\ v.rows[r] = KeptRow(o, r) \cup {o.rows[r]}
+                /\ \E j \in 1..v.enh.n : LET t == Progs[v.enh.e][j] IN t.a = o.pcol[r] /\ t.m \in CharModes]_vars
+\* C03: an X/27 packet with a damaged link never shows a page number that was not transmitted for that link
+LinksContained == \A c \in cache : \A k \in Links : c.links[k] # {} /\ c.links[k] \subseteq Flofs \cup {0}
+\* ... and a damaged link keeps its value or is no link
+DamagedLinkKept == [][(lastAct'.a = "Flof" /\ lastAct'.flt.f = "link") => LET m == lastAct'.m IN open[m] # None =>
+                        /\ open'[m].links[lastAct'.flt.k] = open[m].links[lastAct'.flt.k] \cup {0}
+                        /\ \A k \in Links : open[m].links[k] \subseteq open'[m].links[k]
+                        /\ \A x \in Mags \ {m} : open'[x] = open[x]]_vars
 =============================================================================
